@@ -608,6 +608,34 @@ def run_entry(ctx, mods, name, fn, scen, layouts):
 FIRST = {}
 
 
+def needle_points(rng):
+    """Integral planar points of magnitude 3e7..9e7 containing a triple whose orientation determinant is exactly -1 / +1,
+    while every product of two coordinate differences stays below 2**53: the int64 and the float64 evaluation of any
+    orientation predicate are both exact, so the two representations must give the same hull - unless the code treats
+    the dtypes differently."""
+    k = int(rng.integers(28_000_000, 46_000_000))
+    pts = [(0, 0), (k, k + 1), (2 * k + 1, 2 * k + 3)]          # det((k,k+1),(2k+1,2k+3)) = -1
+    mirrored = bool(rng.random() < 0.5)
+    if mirrored:
+        pts = [(x, y) for (y, x) in pts]                       # mirrored: determinant +1
+    lim = 2 * k
+    want = int(rng.integers(5, 9))
+    while len(pts) < want:
+        # the other points lie on the far side of the needle's long edge, so that the middle point of the needle is a
+        # hull vertex exactly when the +-1 turn is seen
+        a_, b_ = int(rng.integers(2_000_000, lim)), int(rng.integers(0, lim))
+        lo, hi = sorted((a_, b_))
+        if hi - lo < 1_000_000:
+            continue
+        q = (lo, hi) if mirrored else (hi, lo)
+        # generic extra points: far from every line through two existing points (huge determinants)
+        if all(abs((b[0] - a[0]) * (q[1] - a[1]) - (q[0] - a[0]) * (b[1] - a[1])) > 1e12
+               for i, a in enumerate(pts) for b in pts[i + 1:]) and q not in pts:
+            pts.append(q)
+    order = rng.permutation(len(pts))
+    return np.array([pts[i] for i in order], dtype=float)
+
+
 def run_history(ctx, mods, scen, base_err):
     """'returns identical results when called again' with a history in between: after every entry point has been called on
     this scenario in all representations, each one is called on a degenerate input of the same shapes (constant curve,
@@ -653,6 +681,9 @@ def run_case(ctx, mods, case):
     scen = Scenario(rng, mods, case['integral'])
     if case.get('large'):
         scen.enlarge(mods)
+    elif case['integral'] and scen.probe_rng.random() < 0.3:
+        scen.G = needle_points(scen.probe_rng)
+        ctx.h('point_set', 'needle (determinant +-1, all products exact in both dtypes)')
     layouts = ['F', 'view'] + (['i64'] if case['integral'] else [])
     ctx.h('scenario', f"{'integral-large' if case.get('large') else ('integral' if case['integral'] else 'float')}/{scen.family}")
     FIRST.clear()
